@@ -134,7 +134,17 @@ class AsmModel:
                 "known_labels": Agg((Str("<hashmap>"), BOT, BOT)),
                 "bytes": Arr(()),
                 "stacksize": ss, "programsize": TOP}
-        return Agg([vals[f] for f in names])
+        # fields this model does not know: an empty map for maps, unknown otherwise
+        ftys = {f["n"]: f["ty"] for f in self.p.need_type(TR)["variants"][0]["fields"]}
+        out = []
+        for f in names:
+            if f in vals:
+                out.append(vals[f])
+            elif "HashMap<" in ftys.get(f, ""):
+                out.append(Agg((Str("<hashmap>"), BOT, BOT)))
+            else:
+                out.append(TOP)
+        return Agg(out)
 
     def push_instruction(self, I, inst_value, next_addr=U8):
         st = absint.State()
